@@ -160,6 +160,10 @@ func (e *Eval) lookupIdent(name string) (tv, bool) {
 			}
 			return tv{v, et}, true
 		}
+		if sv, ok := e.fr.env[pick].(*SliceV); ok {
+			// local array: exposed as a slice view
+			return tv{sv, types.NewSlice(sv.Elem)}, true
+		}
 		if ref, ok := e.fr.env[pick].(T); ok {
 			// heap-allocated local struct: value is the struct at ref; expose as pointer for selection
 			return tv{ref, types.NewPointer(et)}, true
@@ -563,6 +567,15 @@ func (e *Eval) evalCall(n *ECall) tv {
 		key := elemKey(sv.Elem)
 		arr := vc.getGlob(e.st, key, arrOf(arrOf(s)))
 		return tv{Sel(arr, sv.Arr), nil}
+	case "addrof":
+		// addrof(s, i): address of element i of a slice of structs
+		a := arg(0)
+		sv, ok := a.v.(*SliceV)
+		if !ok || structOf(sv.Elem) == nil {
+			e.fail("addrof expects a slice of structs")
+		}
+		i := e.leaf(n.Args[1])
+		return tv{vc.elemAddr(types.Unalias(sv.Elem), sv.Arr, Add(sv.Off, i)), types.NewPointer(sv.Elem)}
 	case "dom", "vals":
 		a := arg(0)
 		m, ok := a.v.(T)
